@@ -164,3 +164,14 @@ PROPS["C19"] = rt_prop(
     "same workload as C09; argument names whose Rust spelling differs (camelCase -> snake_case, keywords type/match, macro log_as); distinct = (flavour, "
     "endpoint, corruption pattern)",
     ["when several arguments are corrupted any of them may be named; when auth/body and a parameter are both bad either error is accepted"])
+
+PROPS["C18"] = rt_prop(
+    "runtime monitoring with fault injection: scripted responses (status x Content-Type x constructively built body x chunking x stream-error position) "
+    "against generated clients of every return class and macro clients; reference decision by construction; blocking/async differential",
+    "Held on every scripted response: a value was returned exactly when the Content-Type was the requested one and the whole body was one document of the "
+    "return type (then equal to the constructed value for every chunking), 204 gave the empty value, everything else an error; the blocking and async twins "
+    "always agreed. All chunkings x error positions of 8 small responses are enumerated completely.",
+    "random (endpoint of each return class, status, content-type class, body class, chunking, error position) + complete enumeration for small bodies; "
+    "distinct = (endpoint, status, content-type class, body class, chunk-path class, error position class, flavour)",
+    ["Content-Type with parameters or different case, 2xx statuses other than 200/204, a 204 with a body and invalid UTF-8 skipped by unit endpoints are observed-only"],
+    level="fault_enumeration")
